@@ -344,4 +344,79 @@ theorem nestJar_table_err (r : Bool) (jar : Jar) (ns : Nests)
   | none => rfl
   | some v => simp only [ht]
 
+/-! ## synthesised attributes after renaming -/
+
+theorem mapOpt_append_singleton {α β : Type} (f : α → Option β) : ∀ (l : List α) (a : α) (r : List β),
+    mapOpt f (l ++ [a]) = some r → ∃ r0 b, mapOpt f l = some r0 ∧ f a = some b ∧ r = r0 ++ [b] := by
+  intro l
+  induction l with
+  | nil =>
+    intro a r h
+    simp only [List.nil_append, mapOpt] at h
+    cases hfa : f a with
+    | none => rw [hfa] at h; simp at h
+    | some b => rw [hfa] at h; simp only [Option.some.injEq] at h; exact ⟨[], b, rfl, rfl, by simp [← h]⟩
+  | cons x rest ih =>
+    intro a r h
+    simp only [List.cons_append, mapOpt] at h
+    cases hfx : f x with
+    | none => rw [hfx] at h; simp at h
+    | some y =>
+      rw [hfx] at h
+      cases hr : mapOpt f (rest ++ [a]) with
+      | none => rw [hr] at h; simp at h
+      | some r1 =>
+        rw [hr] at h
+        simp only [Option.some.injEq] at h
+        obtain ⟨r0, b, h1, h2, h3⟩ := ih a r1 hr
+        exact ⟨y :: r0, b, by simp only [mapOpt, hfx, h1], h2, by rw [← h, h3]; rfl⟩
+
+theorem remapInner_plain (f : JStr → JStr) (n : Nest) (h1 : n.className.head? ≠ some LBRACK)
+    (h2 : n.enclClass.head? ≠ some LBRACK) : remapInner f (innerClassOf n) = some (renamedInnerClass f n) := by
+  unfold remapInner innerClassOf renamedInnerClass mapClassAny
+  simp only [h1, if_false]
+  by_cases hk : n.kind = .inner
+  · simp [hk, h2, innerClassOf]
+  · simp [hk, innerClassOf]
+
+theorem remapEncl_plain (f : JStr → JStr) (n : Nest) (h2 : n.enclClass.head? ≠ some LBRACK) :
+    remapEncl f { cls := n.enclClass, method := n.enclMethod } = renamedEnclMethod f n := by
+  unfold remapEncl renamedEnclMethod mapClassAny
+  cases hm : n.enclMethod with
+  | none => simp [h2]
+  | some m => obtain ⟨mn, md⟩ := m; simp [h2]
+
+/-- the attributes synthesised for a nested class carry the NEW names after renaming -/
+theorem emitClass_true_attrs (this : Nests) (f : JStr → JStr) (c c' : JClass) (n : Nest)
+    (h : emitClass true this f c = some c') (hg : get this c.name = some n)
+    (h1 : n.className.head? ≠ some LBRACK) (h2 : n.enclClass.head? ≠ some LBRACK) :
+    (∃ ics, c'.innerClasses = some (ics ++ [renamedInnerClass f n])) ∧
+    ((n.kind = .anonymous ∨ n.kind = .local) → ∃ em, renamedEnclMethod f n = some em ∧ c'.enclosingMethod = some em) := by
+  unfold emitClass at h
+  simp only [if_true] at h
+  rw [addAttrs_some this c n hg] at h
+  unfold remapClass at h
+  simp only at h
+  split at h
+  · simp at h
+  · split at h
+    · simp at h
+    · rename_i ics hics
+      split at h
+      · simp at h
+      · rename_i em hem
+        simp only [Option.some.injEq] at h
+        subst h
+        simp only [mapMOpt, Option.map_eq_some_iff] at hics
+        obtain ⟨l, hl, e⟩ := hics
+        obtain ⟨r0, b, _, hb, hr⟩ := mapOpt_append_singleton _ _ _ _ hl
+        rw [remapInner_plain f n h1 h2] at hb
+        simp only [Option.some.injEq] at hb
+        refine ⟨⟨r0, by rw [← e, hr, hb]⟩, ?_⟩
+        intro hk
+        simp only [hk, if_true, mapMOpt, Option.map_eq_some_iff] at hem
+        obtain ⟨em', hem', e2⟩ := hem
+        rw [remapEncl_plain f n h2] at hem'
+        exact ⟨em', hem', e2.symm⟩
+
 end Nest
